@@ -209,7 +209,7 @@ func (g *ribGen) entry(o *drv.OpSpec) {
 				o.Key = uint64(11 + g.r.Intn(5))
 			}
 		case "v6":
-			o.Key = uint64(1 + g.r.Intn(2))
+			o.Key = drv.Pick(g.r, uint64(1), 2, 1, 2, 1, 2, 5, 6)
 			if malformed && g.r.Chance(1, 2) {
 				o.Key = uint64(11 + g.r.Intn(4))
 			}
@@ -244,6 +244,11 @@ func (g *ribGen) step() RStep {
 			return RStep{K: "flush", NIs: []int{1, 2, 3}}
 		}
 		return RStep{K: "flush", NIs: [][]int{{1}, {2}, {3}, {1, 2}, {2, 3}}[g.r.Intn(5)]}
+	}
+	if len(g.hist) > 0 && g.r.Chance(1, 12) {
+		// an earlier operation's key is deleted (exactly as it was spelled)
+		h := g.hist[g.r.Intn(len(g.hist))]
+		return RStep{K: "del", Op: &drv.OpSpec{ID: g.id(), NI: h.NI, Kind: "DELETE", T: h.T, Key: h.Key}}
 	}
 	if len(g.hist) > 0 && g.r.Chance(1, 6) {
 		// an earlier operation is programmed again: identical, with leaves removed, or with one leaf changed
@@ -383,12 +388,13 @@ func (g *ribGen) retargetCase() RCase {
 		case "v4":
 			o.Key = uint64(1 + g.r.Intn(2))
 		case "v6":
-			o.Key = 1
+			o.Key = drv.Pick(g.r, uint64(1), 1, 2, 5, 6) // 5 and 6: other spellings of 2 and 1, distinct keys
 		default:
-			o.Key = 100
+			o.Key = drv.Pick(g.r, uint64(100), 100, 16)
 		}
 		return o
 	}
+	var added []drv.OpSpec
 	for i := 0; i < 6+g.r.Intn(14); i++ {
 		switch x := g.r.Intn(20); {
 		case x < 11:
@@ -399,8 +405,13 @@ func (g *ribGen) retargetCase() RCase {
 				o.NHGN = drv.Pick(g.r, nis...)
 			}
 			add("add", o)
+			added = append(added, o)
 		case x < 14:
 			o := top()
+			if len(added) > 0 && g.r.Chance(2, 3) { // delete an entry that was programmed, by the key it was programmed with
+				a := added[g.r.Intn(len(added))]
+				o = drv.OpSpec{NI: a.NI, T: a.T, Key: a.Key}
+			}
 			o.Kind = "DELETE"
 			add("del", o)
 		case x < 17:
@@ -430,7 +441,7 @@ func (g *ribGen) retargetCase() RCase {
 
 func genRCase(r *drv.Rng, prof string) RCase {
 	g := &ribGen{r: r, prof: prof}
-	if (prof == "C03" && r.Chance(1, 2)) || (prof == "C01" && r.Chance(1, 6)) {
+	if (prof == "C03" && r.Chance(1, 2)) || (prof == "C01" && r.Chance(1, 3)) {
 		return g.retargetCase()
 	}
 	if prof == "C02" && r.Chance(3, 4) {
@@ -706,6 +717,8 @@ func oracleC02(c RCase) string {
 	ops := map[uint64]drv.OpSpec{}
 	problem := ""
 	partial := false
+	sent := []uint64{} // ids given to AddEntry that did not end in a fatal error
+	answered := map[uint64]bool{}
 	ribRun(c, func(i int, st RStep, o StepObs, r *rib.RIB) {
 		if problem != "" {
 			return
@@ -716,6 +729,28 @@ func oracleC02(c RCase) string {
 		}
 		if st.Op != nil {
 			ops[st.Op.ID] = *st.Op
+		}
+		// every operation handed to the RIB is acknowledged, failed, or still held - never forgotten
+		if st.K == "add" && st.Op != nil && !o.Fatal {
+			sent = append(sent, st.Op.ID)
+		}
+		for _, id := range append(append([]uint64{}, o.Oks...), o.Fails...) {
+			answered[id] = true
+		}
+		held := map[uint64]bool{}
+		for _, id := range o.Pend {
+			held[id] = true
+		}
+		for _, id := range sent {
+			if !answered[id] && !held[id] {
+				problem = fmt.Sprintf("step %d (%s): operation %d was neither acknowledged nor failed and is no longer held", i, st.K, id)
+				return
+			}
+		}
+		// deletion protection: every counter = number of installed referrers
+		if p := refcountProblem(r); p != "" {
+			problem = fmt.Sprintf("step %d: %s", i, p)
+			return
 		}
 		if st.K == "flush" {
 			all := map[int]bool{}
